@@ -153,6 +153,23 @@ def run_nice(acc, values):
                     if (got != v and not isinstance(got, str)) or k != v:
                         viols.append(("nice_readback_wrong", f"nice({v}): psutil get {got} kernel {k}"))
             acc.case(case, tb["nice"] != v, viols, key=harness.chash(["nice", v, tb["nice"], n_ % 2]))
+            # somebody else re-nices the process, then the same request is made again through the same object: a set is a
+            # request to the kernel, not a comparison with what this object did last time
+            other = 3 if v != 3 else 4
+            case2 = dict(kind="nice_again_after_external_change", value=v, other=other)
+            try:
+                os.setpriority(os.PRIO_PROCESS, c.target.pid, other)
+            except OSError:
+                continue
+            r, viols, tb = c.guarded(lambda: c.p.nice(v), case2)
+            acc.count("sets_repeated_after_an_external_change")
+            if r[0] == "ok":
+                k = os.getpriority(os.PRIO_PROCESS, c.target.pid)
+                if k != v:
+                    viols.append(("nice_readback_wrong:same_request_after_external_change", f"nice({v}) again after renice to {other}: kernel says {k}"))
+            elif r[0] != "AccessDenied":
+                viols.append((f"nice_set_raised:{r[0]}", f"nice({v}) -> {r[1]!r}"))
+            acc.case(case2, True, viols)
         for bad in (20, 21, 100, -21, -100):
             # out-of-range nice values are clamped by the kernel (not listed as invalid by the statement): only sentinels matter
             case = dict(kind="nice_out_of_range", value=bad)
